@@ -45,6 +45,26 @@ for p in pipelines or [None]:
         res = ["RAISED", type(e).__name__, str(e)]
     outs.append({"queries": res, "errors": [[r.title, type(e).__name__, str(e)] for r, e in b.errors]})
 sections["conversions"] = outs
+# 3b. the same with the verification backend (in-expressions, not-equals, correlation templates with
+# typing / fields / normalisation expressions: code paths the stock test backend leaves unset)
+sys.path.insert(0, sys.argv[4]) if len(sys.argv) > 4 else None
+try:
+    from vf.target.backend import make_backend
+    from vf.target.correlation import correlation_attrs
+except ImportError:
+    make_backend = None
+if make_backend is not None:
+    outs2 = []
+    for p in pipelines or [None]:
+        c = SigmaCollection.from_dicts(json.loads(json.dumps(corpus["docs"])), collect_errors=True)
+        b = make_backend({"or_in": True, "and_in": True, "not_eq": True, "field_profile": "quoted", "cidr": True}, p, collect_errors=True,
+                         extra_attrs=correlation_attrs({"timespan": "seconds", "typing": True, "single": True, "fields": True, "normalization": True}))
+        try:
+            res = b.convert(c)
+        except Exception as e:  # noqa
+            res = ["RAISED", type(e).__name__, str(e)]
+        outs2.append({"queries": res, "errors": [[r.title, type(e).__name__, str(e)] for r, e in b.errors]})
+    sections["conversions_verification_backend"] = outs2
 # 4. validation
 if corpus.get("validate"):
     from sigma.validation import SigmaValidator
